@@ -142,6 +142,38 @@ def gen_messages(r, tier):
     return out
 
 
+def scribble(o, depth=0):
+    """the caller edits, in place, whatever is mutable in an object a parse returned (a later parse must not see it)"""
+    if depth > 4:
+        return
+    names = []
+    for c in type(o).__mro__:
+        names += list(getattr(c, "__slots__", ()))
+    names += list(getattr(o, "__dict__", {}))
+    for n in names:
+        try:
+            v = getattr(o, n)
+        except AttributeError:
+            continue
+        try:
+            if isinstance(v, bool):
+                setattr(o, n, not v)
+            elif isinstance(v, int):
+                setattr(o, n, v ^ 1)
+            elif isinstance(v, bytes) and type(v) is bytes:
+                setattr(o, n, (bytes([v[0] ^ 0x55]) + v[1:]) if v else b"\x55")
+            elif isinstance(v, list):
+                for e in v:
+                    scribble(e, depth + 1)
+                if v and isinstance(v[0], (int, bytes)):
+                    v[0] = v[0] ^ 1 if isinstance(v[0], int) else b"\x55" * len(v[0])
+                v.append(v[0]) if v else None
+            elif hasattr(v, "__slots__") or hasattr(v, "__dict__"):
+                scribble(v, depth + 1)
+        except (AttributeError, TypeError):
+            pass
+
+
 def read_one(f):
     import bitcoin.messages as M
     import contextlib
@@ -155,6 +187,7 @@ def read_one(f):
         if kk == "exc":
             return {"k": "exc", "cls": "projection:" + type(pm).__name__, "mro": [], "pos": pos}
         kk, rb = call(v.to_bytes)
+        call(scribble, v)
         return {"k": "msg", "m": pm, "pos": pos, "reframed": b2l(rb) if kk == "ret" else [-1]}
     return dict(exc_info(v), k="exc", pos=pos)
 
